@@ -49,7 +49,8 @@ class FeatureProduction(Production):
         res = []
         for path in self._features.get_all_paths():
             if path:
-                feature = self._features.get_feature_by_path(path)
+                feature = self._features.get_feature_by_path(
+                    path).get_dereferenced()
                 value = feature.value
                 if value is None:
                     value = ("?", variables.setdefault(id(feature),
